@@ -217,8 +217,9 @@ impl Scenario for Crash {
         CrashPlan {
             seed: rng.next_u64(),
             ops,
-            l3_samples: if thorough { 24 } else { 0 },
-            io_error: if thorough && rng.chance(1, 2) { Some((rng.below(120), rng.below(3) as u8)) } else { None },
+            // (quick: a third of the histories sample a few L3 / torn images, a quarter inject one I/O error)
+            l3_samples: if thorough { 24 } else if rng.chance(1, 3) { 6 } else { 0 },
+            io_error: if rng.chance(1, if thorough { 2 } else { 4 }) { Some((rng.below(if thorough { 120 } else { 30 }), rng.below(3) as u8)) } else { None },
             double: (0..if thorough { 6 } else { 2 }).map(|_| ((rng.usize_below(nops), rng.below(5) as u32), (rng.usize_below(nops), rng.below(5) as u32))).collect(),
             long: false,
             single: vec![],
@@ -298,7 +299,7 @@ impl Scenario for Crash {
         if self.long {
             return "Histories of 60-220 operations, mostly writes at few keys with mostly increasing timestamps (overwrites and prefix deletions keep pruning), single-step modifications in between, and no or hardly any committing operation, so that up to several hundred modifications pile up in one write transaction; per history every crash point x loss model (L1, L2) is judged, with no age commit and with 0-2 sampled single placements. evaluations = crash scenarios judged; distinct = distinct reopened images.".into();
         }
-        "Histories of 3-12 operations (remote/local inserts and deletions, multi-entry messages, policies, peers, capability imports, document removal, flush, reads) are sampled; per history the crash-point x loss-model (L1, L2) x single-age-commit-placement space is enumerated completely (thorough adds sampled L3/torn images, I/O errors and more double placements). One history in forty also enumerates the crash points of the very first open of a new database (every image plain redb accepts must open as the empty store). evaluations = crash scenarios judged (placement, crash point, loss); distinct = distinct reopened images (by rolling hash of the write log prefix).".into()
+        "Histories of 3-12 operations (remote/local inserts and deletions, multi-entry messages, policies, peers, capability imports, document removal, flush, reads) are sampled; per history the crash-point x loss-model (L1, L2) x single-age-commit-placement space is enumerated completely (a third of the histories also sample L3 / torn images and a quarter inject one I/O error - EIO on write, EIO on sync, ENOSPC - after which the operation may fail but no image may show content outside the passed states; thorough does both for every history and samples more double placements). One history in forty also enumerates the crash points of the very first open of a new database (every image plain redb accepts must open as the empty store). evaluations = crash scenarios judged (placement, crash point, loss); distinct = distinct reopened images (by rolling hash of the write log prefix).".into()
     }
 }
 
